@@ -311,6 +311,13 @@ impl<H: Host> ZXController<H> {
         }
     }
 
+    /// Moves emulation to the given position in the frame. Screen renderer
+    /// continues from the same position
+    pub(crate) fn set_frame_clocks(&mut self, clocks: usize) {
+        self.frame_clocks = clocks;
+        self.screen.set_beam_position(clocks);
+    }
+
     /// Starts a new frame
     fn new_frame(&mut self) {
         self.frame_clocks -= self.machine.specs().clocks_frame;
